@@ -533,6 +533,13 @@ def refactor_variants() -> list[dict]:
         pf = d / "patch.diff"
         if pf.exists():
             out.append({"id": f"refactors/{d.name}", "diff": pf.read_text()})
+    # seeded "refactoring with a slip" whose author also delivered the refactoring WITHOUT the slip
+    sroot = root.parent / "seeded"
+    if sroot.is_dir():
+        for d in sorted(sroot.iterdir()):
+            ff = d / "fixed.diff"
+            if ff.exists():
+                out.append({"id": f"seeded/{d.name}#fixed", "diff": ff.read_text()})
     return out
 
 
